@@ -50,6 +50,13 @@ impl Sandbox {
         // that "tidies up" empty folders too far up removes them (and they are in the snapshot)
         let dest = p.join("e1").join("e2").join("dest");
         std::fs::create_dir_all(&dest).unwrap();
+        // siblings whose names EXTEND the destination's name: a confinement test on strings instead of path
+        // components takes them for the destination
+        for sib in ["dest.bak", "dest2"] {
+            let d = p.join("e1").join("e2").join(sib);
+            std::fs::create_dir_all(&d).unwrap();
+            std::fs::write(d.join("n"), format!("victim-{}", sib)).unwrap();
+        }
         Sandbox { root, dest }
     }
     /// everything under the sandbox root except the destination directory: path -> content
@@ -120,7 +127,7 @@ pub struct G {
 pub fn run_case(sb: &Sandbox, before: &BTreeMap<PathBuf, Option<Vec<u8>>>, c: &Case, g: &mut G) -> Option<(String, String)> {
     g.sessions += 1;
     sb.clear_dest();
-    let loc = c.location.replace("@SANDBOXBS@", &sb.root.to_str().unwrap().replace('/', "\\")).replace("@SANDBOX@", sb.root.to_str().unwrap());
+    let loc = c.location.replace("@SANDBOXBS@", &sb.root.to_str().unwrap().replace('/', "\\")).replace("@SANDBOX@", sb.root.to_str().unwrap()).replace("@DEST@", sb.dest.to_str().unwrap());
     if loc.contains("..") {
         g.with_dotdot += 1;
     }
@@ -309,6 +316,12 @@ pub fn run(thorough: bool) -> i32 {
                 for t in tails {
                     locs.push(format!("{}{}{}", p, h, t));
                 }
+            }
+        }
+        // absolute paths next to the destination, behind every prefix
+        for p in ["file:///", "file://host/", "http://h/", "x:", "x:/", "x://h/", "", "/", "//"] {
+            for t in ["@DEST@.bak/n", "@DEST@2/n", "@DEST@.bak/sub/new", "@DEST@2/sub/new", "@DEST@/../dest.bak/n", "@DEST@/inside", "@DEST@.bak", "@DEST@"] {
+                locs.push(format!("{}{}", p, t));
             }
         }
         locs.sort();
